@@ -95,6 +95,7 @@ def check(run) -> None:
         keep = [s for s in scs if s["other"] == "none"]     # (includes every firstbind / cont / anim scenario)
         rest = [s for s in scs if s["other"] != "none"]
         scs = keep + random.Random(run.seed).sample(rest, min(60, len(rest)))
+    scs += board.pin0_scenarios()             # devices on pin 0
     scs += board.monitor_scenarios()          # the serial monitor constructed in a branch / loop / helper / the main loop
     fw.ensure_runtime(False)
     with cf.ProcessPoolExecutor(max_workers=NCPU) as ex:
